@@ -46,7 +46,7 @@ def main(ctx):
     G.selfcheck()
     jobs = []
     for cls in G.CLASS_NAMES:
-        n = len(G.generate_valid(cls, ctx.tier))
+        n = len(_gen(cls, ctx.tier))
         step = CHUNK[ctx.tier]
         for lo in range(0, n, step):
             jobs.append({"kind": "rt", "cls": cls, "tier": ctx.tier, "lo": lo,
@@ -98,7 +98,16 @@ def _gen(cls, tier):
     key = (cls, tier)
     if key not in _CACHE:
         _CACHE.clear()
-        _CACHE[key] = G.generate_valid(cls, tier)
+        msgs = list(G.generate_valid(cls, tier))
+        if cls == "HELLO":
+            # documented extension of the library's own constructor: Hello(realm=None, ...) - "the
+            # router assigns the realm"; the reference grammar leaves its acceptance open, but a
+            # message object the public constructor builds has to survive the serializers
+            for label, w in msgs[:3]:
+                w2 = _copy(w)
+                w2[1] = None
+                msgs.append(("ext:realm-none/" + label, w2))
+        _CACHE[key] = msgs
     return _CACHE[key]
 
 
@@ -246,7 +255,8 @@ class _Run:
     def _one(self, cls, label, w, configs):
         G = self.G
         K = _klass(cls)
-        if G.validate(w) != "accept":      # generator and validator of the reference agree
+        if G.validate(w) != "accept" and not (label.startswith("ext:") and G.validate(w) != "reject"):
+            # generator and validator of the reference agree
             raise RuntimeError("reference grammar inconsistent for %s %s: %r" % (
                 cls, label, G.explain(w)))
         cw = G.canonical(w)
